@@ -435,3 +435,217 @@ Qed.
 (** the table regenerated from engine.rs: the sweeper's delete phase consults the stored deadline *)
 Lemma sweeper_table : sweeper_rechecks_stored_deadline = true.
 Proof. vm_compute. reflexivity. Qed.
+
+(** ================= the deadline index covers the stored deadlines ================= *)
+(** [indexed] is an invariant of the string / key-space family (the only commands that create
+    or change a deadline: SET .. EX/PX, SETEX/PSETEX, EXPIRE/PEXPIRE, PERSIST, RENAME): it
+    holds initially and every command of the family preserves it *)
+Lemma indexed_empty : indexed empty_db.
+Proof. intros k e t G. discriminate. Qed.
+Lemma indexed_del d k : indexed d -> indexed (del_entry d k).
+Proof.
+  intros I k' e t G X. destruct (beq k' k) eqn:B.
+  - apply beq_eq in B. subst. rewrite get_entry_del_same in G. discriminate.
+  - rewrite get_entry_del_other in G by exact B. exact (I k' e t G X).
+Qed.
+Lemma indexed_index_del_absent d k : indexed d -> get_entry d k = None -> indexed (index_del d k).
+Proof.
+  intros I N k' e t G X. rewrite get_entry_index_del in G. destruct (beq k' k) eqn:B.
+  - apply beq_eq in B. subst. congruence.
+  - cbn [index_del d_index]. rewrite alookup_aremove_other by exact B. exact (I k' e t G X).
+Qed.
+Lemma indexed_put_none d k e : indexed d -> e_exp e = None -> indexed (put_entry d k e).
+Proof.
+  intros I N k' e' t G X. destruct (beq k' k) eqn:B.
+  - apply beq_eq in B. subst. rewrite get_entry_put_same in G. inversion G; subst. congruence.
+  - rewrite get_entry_put_other in G by exact B. exact (I k' e' t G X).
+Qed.
+Lemma indexed_put_same_exp d k e0 e : indexed d -> get_entry d k = Some e0 -> e_exp e = e_exp e0 -> indexed (put_entry d k e).
+Proof.
+  intros I G0 E k' e' t G X. destruct (beq k' k) eqn:B.
+  - apply beq_eq in B. subst. rewrite get_entry_put_same in G. inversion G; subst. rewrite E in X. exact (I k e0 t G0 X).
+  - rewrite get_entry_put_other in G by exact B. exact (I k' e' t G X).
+Qed.
+Lemma indexed_put_indexed d k e t : indexed d -> e_exp e = Some t -> indexed (index_set (put_entry d k e) k t).
+Proof.
+  intros I E k' e' t' G X. rewrite get_entry_index in G. destruct (beq k' k) eqn:B.
+  - apply beq_eq in B. subst. rewrite get_entry_put_same in G. inversion G; subst. rewrite E in X. inversion X; subst.
+    exists t'. split; [cbn [index_set d_index]; apply alookup_aset_same|lia].
+  - rewrite get_entry_put_other in G by exact B. cbn [index_set put_entry d_index].
+    rewrite alookup_aset_other by exact B. exact (I k' e' t' G X).
+Qed.
+Lemma indexed_index_del_none d k e : indexed d -> get_entry d k = Some e -> e_exp e = None -> indexed (index_del d k).
+Proof.
+  intros I G0 N k' e' t G X. rewrite get_entry_index_del in G. destruct (beq k' k) eqn:B.
+  - apply beq_eq in B. subst. rewrite G0 in G. inversion G; subst. congruence.
+  - cbn [index_del d_index]. rewrite alookup_aremove_other by exact B. exact (I k' e' t G X).
+Qed.
+Lemma indexed_set_value now d k v ttl : indexed d -> indexed (set_value now d k v ttl).
+Proof.
+  intros I. unfold set_value. destruct ttl as [ms|].
+  - apply indexed_put_indexed; [exact I|reflexivity].
+  - apply indexed_put_none; [exact I|reflexivity].
+Qed.
+Lemma indexed_delete d k b d' : indexed d -> eng_delete d k = (b, d') -> indexed d'.
+Proof.
+  intros I H. unfold eng_delete in H. destruct (get_entry d k); inversion H; subst; [|exact I].
+  apply indexed_index_del_absent; [apply indexed_del; exact I|apply get_entry_del_same].
+Qed.
+Lemma indexed_expire now d k ms b d' : indexed d -> eng_expire now d k ms = (b, d') -> indexed d'.
+Proof.
+  intros I H. unfold eng_expire in H. destruct (get_entry d k); inversion H; subst; [|exact I].
+  apply indexed_put_indexed; [exact I|reflexivity].
+Qed.
+Lemma indexed_persist d k b d' : indexed d -> eng_persist d k = (b, d') -> indexed d'.
+Proof.
+  intros I H. unfold eng_persist in H. destruct (get_entry d k) as [e|] eqn:G; [|inversion H; subst; exact I].
+  destruct (e_exp e); inversion H; subst; [|exact I].
+  eapply indexed_index_del_none; [apply indexed_put_none; [exact I|reflexivity]|apply get_entry_put_same|reflexivity].
+Qed.
+Lemma indexed_rename d o n b d' : indexed d -> eng_rename d o n = (b, d') -> indexed d'.
+Proof.
+  intros I H. unfold eng_rename in H. destruct (get_entry d o) as [e|] eqn:G; inversion H; subst; [|exact I].
+  assert (I1 : indexed (index_del (del_entry d o) o)).
+  { apply indexed_index_del_absent; [apply indexed_del; exact I|apply get_entry_del_same]. }
+  destruct (e_exp e) as [t|] eqn:X.
+  - (* put then index: reorder *)
+    intros k' e' t' G' X'. destruct (beq k' n) eqn:B.
+    + apply beq_eq in B. subst k'. rewrite get_entry_put_same in G'. inversion G'; subst e'. rewrite X in X'. inversion X'; subst t'.
+      exists t. split; [cbn [put_entry index_set d_index]; apply alookup_aset_same|lia].
+    + rewrite get_entry_put_other in G' by exact B. rewrite get_entry_index in G'.
+      cbn [put_entry index_set d_index]. rewrite alookup_aset_other by exact B. exact (I1 k' e' t' G' X').
+  - intros k' e' t' G' X'. destruct (beq k' n) eqn:B.
+    + apply beq_eq in B. subst k'. rewrite get_entry_put_same in G'. inversion G'; subst e'. congruence.
+    + rewrite get_entry_put_other in G' by exact B. rewrite get_entry_index_del in G'.
+      cbn [put_entry index_del d_index]. cbn [index_del d_index] in I1.
+      rewrite alookup_aremove_other by exact B. exact (I1 k' e' t' G' X').
+Qed.
+Lemma indexed_eng_get now d k g d' : indexed d -> eng_get now d k = (g, d') -> indexed d'.
+Proof.
+  intros I H. unfold eng_get in H. destruct (get_entry d k) as [e|]; [|inversion H; subst; exact I].
+  destruct (expired now e); inversion H; subst; [|exact I].
+  apply indexed_index_del_absent; [apply indexed_del; exact I|apply get_entry_del_same].
+Qed.
+
+(** ---- every command of the string / key-space family preserves [indexed] ---- *)
+Create HintDb idx.
+#[export] Hint Resolve indexed_empty indexed_del indexed_put_none indexed_put_same_exp indexed_put_indexed
+  indexed_index_del_absent indexed_index_del_none indexed_set_value get_entry_del_same get_entry_put_same : idx.
+Ltac ix_solve := intros; repeat wf_step; try discriminate; eauto 8 with idx.
+Lemma ix_eng_incr d k inc o d' : indexed d -> eng_incr_by d k inc = (o, d') -> indexed d'.
+Proof. unfold eng_incr_by. ix_solve. Qed.
+Lemma ix_reply_incr d k inc r d' : indexed d -> reply_incr (eng_incr_by d k inc) = (r, d') -> indexed d'.
+Proof.
+  intros Hw H. unfold reply_incr in H. destruct (eng_incr_by d k inc) as [o d1] eqn:E.
+  assert (indexed d1) by (eapply ix_eng_incr; eauto). destruct o; inversion H; subst; assumption.
+Qed.
+Lemma ix_eng_get now d k g d' : indexed d -> eng_get now d k = (g, d') -> indexed d'.
+Proof. intros; eapply indexed_eng_get; eauto. Qed.
+Lemma ix_get_string now d k g d' : indexed d -> get_string now d k = (g, d') -> indexed d'.
+Proof.
+  intros Hw H. unfold get_string in H. destruct (eng_get now d k) as [g1 d1] eqn:E.
+  assert (indexed d1) by (eapply ix_eng_get; eauto).
+  destruct g1 as [v| |]; [destruct v|..]; inversion H; subst; assumption.
+Qed.
+Lemma ix_eng_rename d o n ok d' : indexed d -> eng_rename d o n = (ok, d') -> indexed d'.
+Proof. intros; eapply indexed_rename; eauto. Qed.
+Lemma ix_del_loop : forall args d n m d', indexed d -> del_loop d args n = (m, d') -> indexed d'.
+Proof.
+  induction args as [|a args IH]; intros d n m d' Hw H; cbn [del_loop] in H.
+  - inversion H; subst; exact Hw.
+  - destruct a; try (eapply IH; eauto; fail).
+    unfold eng_delete in H. destruct (get_entry d b).
+    + eapply IH; [|exact H]. auto with idx.
+    + eapply IH; eauto.
+Qed.
+Lemma ix_mget_loop now : forall args d acc r d', indexed d -> mget_loop now d args acc = (r, d') -> indexed d'.
+Proof.
+  induction args as [|a args IH]; intros d acc r d' Hw H; cbn [mget_loop] in H.
+  - inversion H; subst; exact Hw.
+  - destruct a; try (inversion H; subst; exact Hw).
+    destruct (get_string now d b) as [[[v|]|] d1] eqn:E;
+      assert (indexed d1) by (eapply ix_get_string; eauto).
+    + eapply IH; eauto.
+    + eapply IH; eauto.
+    + inversion H; subst; assumption.
+Qed.
+Lemma ix_mset_loop now : forall (n : nat) args d r d', (length args <= n)%nat ->
+  indexed d -> mset_loop now d args = (r, d') -> indexed d'.
+Proof.
+  induction n as [|n IH]; intros args d r d' Hl Hw H.
+  - destruct args; [|cbn in Hl; lia]. inversion H; subst; exact Hw.
+  - destruct args as [|a args]; [inversion H; subst; exact Hw|].
+    cbn [mset_loop] in H. destruct a; try (inversion H; subst; exact Hw).
+    destruct args as [|a2 args]; [inversion H; subst; exact Hw|].
+    destruct a2; try (inversion H; subst; exact Hw).
+    eapply (IH args); [cbn [length] in Hl; lia| |exact H]. auto with idx.
+Qed.
+
+Lemma exec_strings_indexed now d name parts r d' :
+  indexed d -> exec_strings now d name parts = Some (r, d') -> indexed d'.
+Proof.
+  unfold exec_strings. intros Hw H.
+  repeat match type of H with
+  | (if ?c then _ else _) = _ => destruct c eqn:?
+  end; try discriminate; inversion H as [H1]; clear H.
+  - (* SET *) unfold h_set in H1. ix_solve.
+  - unfold h_get in H1. destruct (negb (nparts parts =? 2)); [inversion H1; subst; exact Hw|].
+    destruct (nth_arg parts 1); [|inversion H1; subst; exact Hw].
+    destruct (beq b []); [inversion H1; subst; exact Hw|].
+    destruct (get_string now d b) as [[[v|]|] d1] eqn:E; inversion H1; subst; eapply ix_get_string; eauto.
+  - unfold h_incr in H1. repeat wf_step; auto; eapply ix_reply_incr; eauto.
+  - unfold h_incr in H1. repeat wf_step; auto; eapply ix_reply_incr; eauto.
+  - unfold h_incrby in H1. repeat wf_step; auto; eapply ix_reply_incr; eauto.
+  - unfold h_decrby in H1. repeat wf_step; auto; eapply ix_reply_incr; eauto.
+  - unfold h_del in H1. destruct (nparts parts <? 2); [inversion H1; subst; exact Hw|].
+    destruct (del_loop d (tl parts) 0) eqn:E. inversion H1; subst. eapply ix_del_loop; eauto.
+  - unfold h_exists in H1. ix_solve.
+  - unfold h_expire, eng_expire, eng_delete in H1. ix_solve.
+  - unfold h_pexpire, eng_expire in H1. ix_solve.
+  - unfold h_ttl in H1. ix_solve.
+  - unfold h_pttl in H1. ix_solve.
+  - unfold h_persist, eng_persist in H1. ix_solve.
+  - unfold h_setnx in H1. ix_solve.
+  - unfold h_setex in H1. ix_solve.
+  - unfold h_setex in H1. ix_solve.
+  - unfold h_mget in H1. destruct (nparts parts <? 2); [inversion H1; subst; exact Hw|].
+    eapply ix_mget_loop; eauto.
+  - unfold h_mset in H1. destruct ((nparts parts <? 3) || (nparts parts mod 2 =? 0)); [inversion H1; subst; exact Hw|].
+    destruct (mset_valid (tl parts)); [|inversion H1; subst; exact Hw].
+    eapply (ix_mset_loop now (length (tl parts))); eauto.
+  - unfold h_getset in H1. destruct (negb (nparts parts =? 3)); [inversion H1; subst; exact Hw|].
+    destruct (nth_arg parts 1); [|inversion H1; subst; exact Hw].
+    destruct (nth_arg parts 2); [|inversion H1; subst; exact Hw].
+    destruct (get_string now d b) as [[o|] d1] eqn:E;
+      assert (indexed d1) by (eapply ix_get_string; eauto); inversion H1; subst; auto with idx.
+  - unfold h_append in H1. ix_solve.
+  - unfold h_strlen in H1. ix_solve.
+  - unfold h_getrange in H1. ix_solve.
+  - unfold h_setrange in H1. ix_solve.
+  - unfold h_type in H1. ix_solve.
+  - unfold h_rename in H1. destruct (negb (nparts parts =? 3)); [inversion H1; subst; exact Hw|].
+    destruct (nth_arg parts 1); [|inversion H1; subst; exact Hw].
+    destruct (nth_arg parts 2); [|inversion H1; subst; exact Hw].
+    destruct (eng_rename d b b0) as [ok d1] eqn:E. pose proof (ix_eng_rename _ _ _ _ _ Hw E).
+    destruct ok; inversion H1; subst; assumption.
+  - unfold h_renamenx in H1. destruct (negb (nparts parts =? 3)); [inversion H1; subst; exact Hw|].
+    destruct (nth_arg parts 1); [|inversion H1; subst; exact Hw].
+    destruct (nth_arg parts 2); [|inversion H1; subst; exact Hw].
+    destruct (negb (eng_exists now d b)); [inversion H1; subst; exact Hw|].
+    destruct (eng_exists now d b0); [inversion H1; subst; exact Hw|].
+    destruct (eng_rename d b b0) as [ok d1] eqn:E. pose proof (ix_eng_rename _ _ _ _ _ Hw E).
+    destruct ok; inversion H1; subst; assumption.
+  - unfold h_keys in H1. ix_solve.
+  - unfold h_dbsize in H1. ix_solve.
+  - unfold h_flushdb in H1. ix_solve.
+Qed.
+
+
+Lemma expire_before_indexed now d name parts : indexed d -> indexed (fst (expire_before now d name parts)).
+Proof.
+  intros I. rewrite expire_before_unfold by reflexivity. cbv zeta.
+  destruct (fold_left (purge_key now) (lazy_args parts) (d, [])) as [d1 l1] eqn:F.
+  assert (I1 : indexed d1).
+  { pose proof (purge_fold_indexed now (lazy_args parts) d [] I) as H. rewrite F in H. exact H. }
+  destruct (bmem name lazy_keyspace_commands); [|exact I1]. apply purge_fold_indexed. exact I1.
+Qed.
